@@ -22,6 +22,7 @@ type Ctx struct {
 	ctxFns     map[*ssa.Function]bool       // functions visited per entry site
 	rpcUnres   []string
 	reachMemo  map[*ssa.Function]map[*ssa.Function]bool
+	lw         *lockWorld
 }
 
 func newCtx(p *Program) *Ctx {
